@@ -9,6 +9,10 @@ THEOREMS = ["C03_code_conforms", "C03_complete_is_result", "C03_converges", "C03
 def workflows(rng, k):
     sp = t3.Spec(maxtasks=rng.randint(1, 3), bufsize=rng.choice([1, 2, 128]))
     L = rng.randint(1, 3)
+    if k % 4 == 0:
+        # several tasks of one process in flight, the oldest the slowest: at many kill instants a later task is final while
+        # an earlier one is not, so that the resumed run re-executes an early task and skips later ones
+        L, sp.max = rng.randint(2, 3), rng.randint(2, 3)
     paths = ["in%d.txt" % j for j in range(L)]
     for p in paths:
         sp.files[p] = "content of %s\n" % p
@@ -18,7 +22,8 @@ def workflows(rng, k):
     empty = (k % 2 == 1)        # every other workflow has a task whose (correct, finalized) output is an empty file
     if empty:
         sp.files[paths[0]] = ""
-    a = sp.proc(t3.Proc("w", kind="cat" if empty else "cattok", ins=[("a", [(s, "out")])], outs=outs, sleep="sleep 0.01"))
+    a = sp.proc(t3.Proc("w", kind="cat" if empty else "cattok", ins=[("a", [(s, "out")])], outs=outs,
+                        sleep='sleep 0.$(( $(echo {i:a|basename} | tr -dc 0-9) == 0 ? 1 : 0 ))1' if k % 4 == 0 else "sleep 0.01"))
     g = sp.proc(t3.Proc("g", kind="cattok", ins=[("a", [(a, "o")])], outs=[("o", "{i:a}.g")], gofunc=(k % 3 == 0)))
     if two:
         sp.proc(t3.Proc("z", kind="cat", ins=[("x", [(g, "o")]), ("y", [(a, "o2")])], outs=[("o", "{i:x}.z")]))
